@@ -85,6 +85,26 @@ for case in payload['cases']:
             routes['tar_file'] = tar_of(p, os.path.join(work, 'f.tar'), 'w')
             routes['targz_package'] = tar_of(routes['package'], os.path.join(work, 'p.tar.gz'), 'w:gz')
             routes['tarxz_file'] = tar_of(p, os.path.join(work, 'f.tar.xz'), 'w:xz')
+        elif case.get('sequential'):
+            # a base lexicon and an extension of it: order matters, so only routes that keep the order (file by file, plain,
+            # compressed, packaged); the in-memory route below adds them in the same order
+            sep = []
+            for name, text in texts:
+                p = os.path.join(work, name.replace(':', '_') + '.xml')
+                open(p, 'w', encoding='utf-8').write(text)
+                sep.append(p)
+            routes['separately'] = sep
+            gz = []
+            for p in sep:
+                with gzip.open(p + '.gz', 'wb') as fh:
+                    fh.write(open(p, 'rb').read())
+                gz.append(p + '.gz')
+            routes['separately_gz'] = gz
+            routes['separately_packages'] = [mk_package(work, os.path.basename(p)[:-4] + '_pkg', open(p, encoding='utf-8').read())
+                                             for p in sep]
+            # (one file holding the base followed by its extension is not among the routes: the skip decision is taken
+            # for the whole file before anything is added, so the extension is skipped — by the letter of the property,
+            # its base is not installed — and a second add of the same file then installs it; noted in DESIGN.md E.6)
         else:
             coll = os.path.join(work, 'collection')
             os.makedirs(coll)
